@@ -69,6 +69,10 @@ pub fn val_bytes(v: u8) -> Vec<u8> {
         4 => vec![b'B'; 9000],
         5 => (0..70_000u32).map(|i| (i % 251) as u8).collect(),
         6 => b"333".to_vec(),
+        // the literals the reference implementation (Riak's Bitcask) reserves for its deletion
+        // marker: to this store they are ordinary values
+        7 => b"bitcask_tombstone".to_vec(),
+        8 => b"bitcask_tombstone2\0\0\0\x01 and more".to_vec(),
         // entry sizes around the 8 KiB and 16 KiB marks (an entry is 25 + key + value bytes)
         100..=200 => vec![b'S'; 8100 + (v as usize - 100)],
         201..=240 => vec![b'T'; 16_340 + (v as usize - 201)],
@@ -1074,6 +1078,8 @@ pub fn plan(prop: &str, tier: Tier, seeds: &[u64]) -> Vec<Sweep> {
                 v.push(Op::Set(k, val));
             }
         }
+        v.push(Op::Set(0, 7));
+        v.push(Op::Set(2, 8));
         for k in [0u8, 2, 3, 4] {
             v.push(Op::Del(k));
         }
